@@ -4,6 +4,7 @@
         reply: `ok <outputs|-> st=<..> link=<0|1> open=<0|1> par=<n> vals=<n> log=<n> conn=<0|1>`;  `status` -> `ok waiting=<open|close|none>` -/
 import CfVerif.Base.Proto
 import CfVerif.Spec.C02
+import CfVerif.Model.C02Sync
 open CfVerif CfVerif.C02
 
 def showEv : Ev → String
@@ -37,8 +38,26 @@ structure DSt where
   s : Sys
   w : Option W      -- the specification automaton run along the trace (none = rejected)
 
+/-- M2: `m2 <fault> <user> <extra thread ids|->` -> what the thread model (built from the regenerated repair flags)
+says about the scenario: can a thread die / can the quiescent disconnected state become unreachable -/
+def m2Verdict (f u e : String) : String :=
+  let fault? : Option M2.Fault := match f with
+    | "none" => some .none | "radio" => some .radio | "disp" => some .disp | "upd" => some .upd | "ping" => some .ping
+    | "timer" => some .timer | "userMem" => some .userMem | _ => none
+  let user? : Option M2.User := match u with
+    | "idle" => some .idle | "close" => some .close | "memWrite" => some .memWrite | "memWriteClose" => some .memWriteClose | _ => none
+  match fault?, user?, parseNatList? e with
+  | some fault, some user, some extra =>
+    let P := M2.progs M2.Fix.ofSource ⟨fault, user, extra⟩
+    let R := M2.reach P 20000
+    let death := R.any fun kc => !M2.noDeath kc.2
+    let stuck := R.any fun kc => !M2.drive P 200 0 kc.2
+    s!"ok states={R.length} death={b01 death} stuck={b01 stuck}"
+  | _, _, _ => "bad-op"
+
 def step1 (st : DSt) (ws : List String) : DSt × String :=
   match ws with
+  | ["m2", f, u, e] => (st, m2Verdict f u e)
   | ["dev", m, nl, nm, bits] =>
     match m.toNat?, nl.toNat?, nm.toNat?, parseBits? bits with
     | some m, some nl, some nm, some bs => ({ d := { magic := m ≠ 0, nLog := nl, nMem := nm, ext := bs }, s := Sys.init, w := some {} }, "ok")
